@@ -124,7 +124,28 @@ impl Piece for IntOfLogPoly4 {
     }
 }
 
-/// All 29 piece kinds by name. `P`=PolyK, `N`=PolyN, `L`=Log<PolyK>, `I`=IntOfLog<PolyK>, `Q`=IntOfLogPoly4.
+/// A piecewise function used as the PIECE of another one (`Piecewise<T>` implements `Evaluate`, so
+/// `Piecewise<Piecewise<Poly0>>` is a legal instantiation): two inner segments, numbers `[end0, v0, end1, v1]`.
+impl Piece for Piecewise<Poly0> {
+    const NC: usize = 4;
+    fn kind() -> Kind {
+        Kind::W
+    }
+    fn from_c(c: &[f64]) -> Self {
+        // inner ends kept non-decreasing
+        let (e0, e1) = if c[2] < c[0] { (c[2], c[0]) } else { (c[0], c[2]) };
+        Piecewise { segments: vec![Segment { end: e0, poly: Poly0(c[1]) }, Segment { end: e1, poly: Poly0(c[3]) }] }
+    }
+    fn bits(&self, out: &mut Vec<u64>) {
+        out.push(self.segments.len() as u64);
+        for s in &self.segments {
+            out.push(s.end.to_bits());
+            out.push(s.poly.0.to_bits());
+        }
+    }
+}
+
+/// All 30 piece kinds by name. `P`=PolyK, `N`=PolyN, `L`=Log<PolyK>, `I`=IntOfLog<PolyK>, `Q`=IntOfLogPoly4, `W`=nested Piecewise<Poly0>.
 #[derive(Clone, Copy, Debug, PartialEq, Eq, PartialOrd, Ord, Hash)]
 pub enum Kind {
     P(u8),
@@ -132,6 +153,7 @@ pub enum Kind {
     L(u8),
     I(u8),
     Q,
+    W,
 }
 
 impl Kind {
@@ -142,6 +164,7 @@ impl Kind {
             Kind::L(k) => format!("Log<Poly{k}>"),
             Kind::I(k) => format!("IntOfLog<Poly{k}>"),
             Kind::Q => "IntOfLogPoly4".into(),
+            Kind::W => "Piecewise<Poly0>(as a piece)".into(),
         }
     }
     pub fn parse(s: &str) -> Result<Kind, String> {
@@ -152,6 +175,8 @@ impl Kind {
             Ok(Kind::N)
         } else if s == "IntOfLogPoly4" {
             Ok(Kind::Q)
+        } else if s == "Piecewise<Poly0>(as a piece)" {
+            Ok(Kind::W)
         } else if let Some(r) = s.strip_prefix("IntOfLog<Poly").and_then(|r| r.strip_suffix('>')) {
             Ok(Kind::I(digit(r)?))
         } else if let Some(r) = s.strip_prefix("Log<Poly").and_then(|r| r.strip_suffix('>')) {
@@ -169,6 +194,7 @@ impl Kind {
             Kind::N => 0,
             Kind::I(k) => k as usize + 2,
             Kind::Q => 6,
+            Kind::W => 4,
         }
     }
     pub fn all() -> Vec<Kind> {
@@ -184,6 +210,7 @@ impl Kind {
             v.push(Kind::I(k));
         }
         v.push(Kind::Q);
+        v.push(Kind::W);
         v
     }
     pub fn index(self) -> usize {
@@ -193,6 +220,7 @@ impl Kind {
             Kind::L(k) => 10 + k as usize,
             Kind::I(k) => 19 + k as usize,
             Kind::Q => 28,
+            Kind::W => 29,
         }
     }
 }
@@ -233,6 +261,7 @@ macro_rules! with_kind {
             Kind::I(7) => { type $T = IntOfLog<Poly7>; $body }
             Kind::I(_) => { type $T = IntOfLog<Poly8>; $body }
             Kind::Q => { type $T = IntOfLogPoly4; $body }
+            Kind::W => { type $T = Piecewise<Poly0>; $body }
         }
     }};
 }
@@ -357,8 +386,8 @@ impl<T: Piece> Target for Piecewise<T> {
     fn coefs(&self, i: usize) -> Vec<f64> {
         let mut b = Vec::new();
         self.segments[i].poly.bits(&mut b);
-        if T::NC == 0 {
-            b.remove(0); // PolyN: drop the length word
+        if T::NC == 0 || T::kind() == Kind::W {
+            b.remove(0); // PolyN / nested piecewise: drop the length word
         }
         b.into_iter().map(f64::from_bits).collect()
     }
@@ -471,6 +500,14 @@ impl<T: Piece> Target for Piecewise<T> {
                 out.values = head.into_iter().enumerate().collect();
                 for (j, y) in it.enumerate() {
                     out.values.push((taken + j, y));
+                }
+            }
+            M::CycleInput => {
+                if n > 0 {
+                    let v: Vec<f64> = self.evaluate_v(xs.to_vec().into_iter().cycle()).take(n).collect();
+                    out.values = v.into_iter().enumerate().collect();
+                } else {
+                    out.expected_values = 0;
                 }
             }
             M::SizeHint => {
